@@ -444,7 +444,9 @@ func (r *FileRestorer) updateImports() error {
 
 			if count == 0 {
 				deleteBlocks[block] = true
-			} else if count == 1 {
+			} else if count == 1 && len(specs[0].Decorations().Start) == 0 {
+				// (a spec with comments above it keeps its parentheses: without them the
+				// comments would no longer be attached to it - e.g. the preamble of import "C")
 				block.Lparen = false
 				block.Rparen = false
 			} else {
@@ -474,7 +476,7 @@ func (r *FileRestorer) updateImports() error {
 			spec.Decorations().After = dst.NewLine
 		}
 
-		if len(blocks[0].Specs) == 1 {
+		if len(blocks[0].Specs) == 1 && len(blocks[0].Specs[0].Decorations().Start) == 0 {
 			blocks[0].Lparen = false
 			blocks[0].Rparen = false
 		} else {
